@@ -71,6 +71,7 @@ def run_case(key, case_idx, tier, seed):
         if not eng.feasible(st):
             out['status'] = 'vacuous-precondition'
             return out
+        eng.local_stack.append(eng.locals_of(fdef))
         outcomes = eng.exec_block(fdef.body, st)
         out['paths'] = len(outcomes)
         n_norm = 0
